@@ -255,3 +255,25 @@ M(['C09', 'C16'], 'oco-row-zero', OCO, "  B = B.at[-1].set(grad_input)", "  B = 
 M(['C09', 'C16'], 'oco-e-not-sqrt', OCO, "  state['e'] = jnp.sqrt(s)\n", "  state['e'] = s\n")
 TW('C09', 'twin-ds-deflate-expanded', DS, "  deflated_eigs = (top_eigs - cutoff) * (top_eigs + cutoff)", "  deflated_eigs = jnp.square(top_eigs) - jnp.square(cutoff)")
 TW('C09', 'twin-sk-tail-commuted', SK, "    tail = axis_state.tail * cov_decay + cutoff**2\n", "    tail = jnp.square(cutoff) + cov_decay * axis_state.tail\n")
+
+# ------------------------------------------------------------------ C10
+M('C10', 'pack-const-collides-tail', DS, "  precond = precond.at[0, -1].set(new_const)", "  precond = precond.at[1, -1].set(new_const)")
+M('C10', 'unpack-eigvals-region', DS, "  eigvals = preconditioner[-r:, -1]\n", "  eigvals = preconditioner[:r, -1]\n")
+M('C10', 'pack-inverted-last-col', DS, "  precond = precond.at[:rank, -2].set(inverted_eigs)", "  precond = precond.at[:rank, -1].set(inverted_eigs)")
+M('C10', 'unpack-tail-row', DS, "  tail = preconditioner[1, -1]\n", "  tail = preconditioner[2, -1]\n")
+M('C10', 'unpack-order-swapped', DS, "  return eigvecs, inverted_eigvals, const, has_zeros", "  return eigvecs, const, inverted_eigvals, has_zeros")
+M('C10', 'pack-wrapper-eigs-in-deflated', DS, "  return _fd_low_rank_pack(eigvecs, jnp.zeros_like(eigvals), eigvals, const,", "  return _fd_low_rank_pack(eigvecs, eigvals, jnp.zeros_like(eigvals), const,")
+M('C10', 'pack-dtype-pinned', DS, "  precond = jnp.zeros((d, rank + 2))\n", "  precond = jnp.zeros((d, rank + 2), dtype=jnp.float32)\n")
+M('C10', 'precond-dim-strict', DS, "  if compressed_size >= dim:\n    return dim", "  if compressed_size > dim:\n    return dim")
+M('C10', 'should-compress-le', DS, "  return compression_rank != 0 and abs(compression_rank) + 2 < dim", "  return compression_rank != 0 and abs(compression_rank) + 2 <= dim")
+TW('C10', 'twin-unused-abs-rank-local', DS, "      should_compress = _should_compress(compression_rank, padding_start)\n\n      if frequent_directions:", "      compression_rank_ = abs(compression_rank)\n      should_compress = _should_compress(compression_rank, padding_start)\n\n      if frequent_directions:")
+M('C10', 'lowroot-gets-abs-rank', DS, "            _low_rank_root,\n            compression_rank=compression_rank,", "            _low_rank_root,\n            compression_rank=abs(compression_rank),")
+M('C10', 'cond-arms-swapped', DS, "      return jax.lax.cond(\n          should_compress, special_root,\n          functools.partial(\n              small_mi_pth_root,\n              padding_start=padding_start,\n              prev=prev,\n          ), stats, exponents)", "      return jax.lax.cond(\n          should_compress,\n          functools.partial(\n              small_mi_pth_root,\n              padding_start=padding_start,\n              prev=prev,\n          ), special_root, stats, exponents)")
+M('C10', 'skip-select-inverted', DS, "        g = jnp.where(skip, old_g, new_g)", "        g = jnp.where(skip, new_g, old_g)")
+M('C10', 'skip-guard-narrowed', DS, "        g = jnp.where(skip, old_g, new_g)", "        g = jnp.where(skip & (const == 0.0), old_g, new_g)")
+M('C10', 'apply-no-complement', DS, "        new_g = const * complement + scaled_lowrank_component", "        new_g = const * g + scaled_lowrank_component")
+M('C10', 'apply-scaled-axis', DS, "        scaled_lowrank_component = jnp.tensordot(\n            scaled_basis, eigvecs, axes=[[rank - 1], [1]])", "        scaled_lowrank_component = jnp.tensordot(\n            scaled_basis, eigvecs, axes=[[rank - 1], [0]])")
+M('C10', 'lowroot-neg-no-roll', DS, "    inv_e = jnp.roll(inv_e, -(d - padding_start))\n    u = jnp.roll(u, -(d - padding_start), axis=1)", "    inv_e = jnp.roll(inv_e, -(d - padding_start))\n    u = jnp.roll(u, (d - padding_start), axis=1)")
+M('C10', 'lowroot-avg-over-padded', DS, "  num_real_eigs_to_avg = real_dim - abs(compression_rank)", "  num_real_eigs_to_avg = d - abs(compression_rank)")
+M('C10', 'lowroot-keep-split', DS, "  keep_e, to_avg_e = inv_e[:split_ix], inv_e[split_ix:]", "  keep_e, to_avg_e = inv_e[:split_ix], inv_e[split_ix + 1:]")
+TW('C10', 'twin-unpack-positive-col', DS, "  const = preconditioner[0, -1]\n", "  const = preconditioner[0, r + 1]\n")
